@@ -1163,6 +1163,20 @@ def gen_retry_skel():
 
 KERNELS.append((gen_retry_skel, "RetrySkel.v"))
 
+import poll2coq      # noqa: E402
+
+
+def gen_poll_skel():
+    """the method bodies of PollExecutor / PollFuture / PollDescriptor (IR of Model/PollIR.v), see tools/poll2coq.py"""
+    try:
+        poll2coq.generate()
+    except poll2coq.Unsupported as e:
+        raise Unsupported(str(e))
+
+
+KERNELS.append((gen_poll_skel, "PollSkel.v"))
+
+
 
 
 
